@@ -88,6 +88,8 @@ def main(tier):
                    "MisalignedPointer/NullPointer debug checks (unreachable in safe Rust)", "allocation failure / capacity overflow are out of scope for 256-character inputs",
                    "rust_decimal internals behind its checked_* API (e.g. Decimal::sqrt's circuit breaker)"]
     run.assumptions = ["stack: the bound is checked against the 8 MiB main-thread stack; the 2 MiB spawned-thread budget is a recorded known finding (dev profile)"]
+    from ..canary import panic_canary
+    panic_canary(run)
     recs = None
     configs = [(None, True), (None, False)]
     if tier == "thorough":
